@@ -414,6 +414,21 @@ def run_case(case, rec, mon=None):
             rec.count("torch_dither_seed_pairs")
             if not torch.equal(a, b):
                 mon.v("pytorch_dither not reproducible under torch.manual_seed", check="torch_dither_seed", op="torch_dither", shape=[n], coeff=c2)
+            if n:
+                # with autograd switched off (the usual way to extract features) and on a module put in eval mode
+                keep = xt.clone()
+                with torch.no_grad():
+                    torch.manual_seed(s)
+                    a2 = T.pytorch_dither(xt, c2)
+                    m = T.PyTorchDither(c2).eval()
+                    torch.manual_seed(s)
+                    b2 = m(xt)
+                rec.count("torch_dither_no_grad_checks")
+                if not torch.equal(xt, keep):
+                    mon.v("pytorch_dither / PyTorchDither modified the tensor it was given (autograd off)", check="torch_dither_input", op="torch_dither", shape=[n], coeff=c2)
+                if not (torch.equal(a2, a) and torch.equal(b2, a)):
+                    mon.v("pytorch_dither with autograd off / PyTorchDither in eval mode does not add the noise of the same seed", check="torch_dither_seed", op="torch_dither",
+                          shape=[n], coeff=c2)
         N = 200000
         xt = torch.zeros(N, dtype=torch.float64)
         torch.manual_seed(int(rng.integers(0, 2 ** 31 - 1)))
